@@ -68,7 +68,7 @@ Proof.
       * exact IH.
 Qed.
 
-Lemma pmap_le_set m t p p' :
+Lemma pmap_le_set m t p' :
   (forall q, pm_get m t = Some q -> idxs_le q p') -> pmap_le m (pm_set m t p').
 Proof.
   intros H t0 q Hg. rewrite pm_get_set. destruct (bytes_eqb t t0) eqn:E.
@@ -129,15 +129,13 @@ Lemma build_updates_ok kind v toadd ups allv :
   build_updates kind v toadd = (ups, allv) -> ups_ok (view_votes kind v) ups.
 Proof.
   unfold build_updates.
+  match goal with |- context [fold_left ?f toadd _] => set (F := f) end.
   assert (G : forall l acc, ups_ok (view_votes kind v) (fst acc) ->
-            ups_ok (view_votes kind v) (fst (fold_left (fun acc e =>
-              let '(ups, allv) := acc in
-              let base := match pm_get (view_votes kind v) (fst e) with Some p => p | None => [] end in
-              let '(p', av, inc) := merge_sparse kind (v_h v) (v_r v) (fst e) (vs_keys (v_vals v)) base (snd e) in
-              (if inc then pm_set ups (fst e) p' else ups, allv && av)) l acc))).
+            ups_ok (view_votes kind v) (fst (fold_left F l acc))).
   { induction l as [|e l IH]; intros [u a] Hu; cbn [fold_left]; [exact Hu|].
+    apply IH. unfold F. cbv beta iota zeta.
     destruct (merge_sparse kind (v_h v) (v_r v) (fst e) (vs_keys (v_vals v)) _ (snd e)) as [[p' av] inc] eqn:Hm.
-    apply IH. cbn [fst]. destruct inc; [|exact Hu].
+    cbn [fst]. destruct inc; [|exact Hu].
     apply ups_ok_set; [exact Hu|]. intros p Hg. rewrite Hg in Hm. eapply merge_sparse_le; exact Hm. }
   intros E. specialize (G toadd ([], true)). rewrite E in G. apply G. intros t p' [].
 Qed.
@@ -372,8 +370,10 @@ Proof.
   { intros P HP. eapply Forall_impl; [|exact Hp]. exact HP. }
   split; [apply A; intros [| | |] H; try destruct H; exact I|].
   split; [apply A; intros [| | |] H; try destruct H; exact I|].
-  clear A. induction new as [|e new IH]; [exact I|]. inversion Hp; subst. split; [|apply IH; assumption].
-  eapply Forall_impl; [|eassumption]. intros e2 H2. destruct e as [| | |]; destruct e2 as [| | |]; try exact I; try destruct H2; try (exfalso; assumption).
+  clear A. induction new as [|e new IH]; [exact I|]. inversion Hp as [|e0 l0 Pe Pl]; subst.
+  split; [|apply IH; exact Pl].
+  eapply Forall_impl; [|exact Pl]. intros e2 P2.
+  destruct e as [| | |]; try (destruct Pe); destruct e2 as [| | |]; try (destruct P2); exact I.
 Qed.
 
 (** in-place update of the view [vid]: same (height, round), nothing lost, version not lower *)
@@ -397,7 +397,7 @@ Proof.
             intros Ha; eapply vle_trans; [exact Ha|exact L]|].
     assert (P : forall a, past a (c, v, n) -> samepos a w -> vq a w).
     { intros a (A1&A2&A3&A4) Hs. eapply vq_trans; [apply A3; unfold samepos in *; split; lia|exact Q]. }
-    split; [|split; [intros a Ha; eapply vle_trans; [exact Ha|exact L]|split; [exact P|split; [unfold get3; rewrite E1; apply vle_refl|]]]].
+    split; [|split; [intros a Ha; eapply vle_trans; [exact Ha|exact L]|split; [exact P|split; [apply vle_refl|]]]].
     + intros a Ha. pose proof (P a Ha) as Pa. destruct Ha as (A1&A2&A3&A4). unfold past. split; [exact A1|]. split; [exact A2|]. split; [exact Pa|exact A4].
     + unfold past. split; [left; unfold pos_lt; lia|].
       split; [intros [X _]; exfalso; lia|]. split; [intros _; apply vq_refl|intros [_ X]; exfalso; lia].
@@ -407,7 +407,7 @@ Proof.
             intros Ha; eapply vle_trans; [exact Ha|exact L]|].
     assert (P : forall a, past a (c, v, n) -> samepos a w -> vq a w).
     { intros a (A1&A2&A3&A4) Hs. eapply vq_trans; [apply A2; unfold samepos in *; split; lia|exact Q]. }
-    split; [|split; [intros a Ha; eapply vle_trans; [exact Ha|exact L]|split; [exact P|split; [unfold get3; rewrite E1, E2; apply vle_refl|]]]].
+    split; [|split; [intros a Ha; eapply vle_trans; [exact Ha|exact L]|split; [exact P|split; [apply vle_refl|]]]].
     + intros a Ha. pose proof (P a Ha) as Pa. destruct Ha as (A1&A2&A3&A4). unfold past. split; [exact A1|]. split; [exact Pa|]. split; [exact A3|exact A4].
     + unfold past. split; [left; unfold pos_lt; lia|].
       split; [intros _; apply vq_refl|]. split; [intros [X _]; exfalso; lia|intros [X _]; exfalso; lia].
@@ -417,7 +417,7 @@ Proof.
             intros Ha; eapply vle_trans; [exact Ha|exact L]|].
     assert (P : forall a, past a (c, v, n) -> samepos a w -> vq a w).
     { intros a (A1&A2&A3&A4) Hs. eapply vq_trans; [apply A4; unfold samepos in *; split; lia|exact Q]. }
-    split; [|split; [intros a Ha; eapply vle_trans; [exact Ha|exact L]|split; [exact P|split; [unfold get3; rewrite E1, E2; apply vle_refl|]]]].
+    split; [|split; [intros a Ha; eapply vle_trans; [exact Ha|exact L]|split; [exact P|split; [apply vle_refl|]]]].
     + intros a Ha. pose proof (P a Ha) as Pa. destruct Ha as (A1&A2&A3&A4). unfold past.
       split; [unfold pos_lt, samepos in *; lia|]. split; [exact A2|]. split; [exact A3|exact Pa].
     + unfold past. split; [right; split; reflexivity|].
@@ -442,7 +442,7 @@ Lemma TR3_upd_mark t vid w :
   samepos (get3 t vid) w -> view_le (get3 t vid) w -> v_ver w = wrap32 (v_ver (get3 t vid) + 1) ->
   TR3 t (put3 t vid w) [EvMark vid w].
 Proof.
-  intros Hp Hl Hv Hok Hk. inversion Hok as [|e l (Hv0&_&_) _]; subst.
+  intros Hp Hl Hv Hok Hk. inversion Hok as [|e l Hev _]; subst. cbn [ev_ok] in Hev. destruct Hev as (Hv0&_&_).
   assert (Hold : v_ver (get3 t vid) < two32).
   { destruct t as [[c v] n]. destruct Hk as (K1&K2&K3&K4&K5&K6&K7&K8). unfold get3.
     destruct (vid =? ViewIDVoting); [|destruct (vid =? ViewIDCommitting)]; assumption. }
@@ -478,7 +478,8 @@ Lemma TR3_incr c v n v' n' :
   TR3 (c, v, n) (c, v', n') [EvMark ViewIDVoting v'; EvMark ViewIDNextRound n'].
 Proof.
   intros [Hp1 Hp2] Hl Hv Hh Hr Hver Hok (K1&K2&K3&K4&K5&K6&K7&K8).
-  inversion Hok as [|e0 l0 (Hv0&_&_) Hok']; subst. inversion Hok' as [|e1 l1 (_&_&Hr0) _]; subst.
+  inversion Hok as [|e0 l0 Hev0 Hok']; subst. inversion Hok' as [|e1 l1 Hev1 _]; subst.
+  cbn [ev_ok] in Hev0, Hev1. destruct Hev0 as (Hv0&_&_). destruct Hev1 as (_&_&Hr0).
   specialize (Hr0 eq_refl).
   assert (Hv' : v_ver v' = v_ver n + 1) by (rewrite Hv; apply wrap32_succ; [exact K8|rewrite <- Hv; exact Hv0]).
   assert (Hr' : v_r n' = v_r v' + 1) by (rewrite Hr; apply wrap32_succ; [lia|rewrite <- Hr; exact Hr0]).
@@ -518,8 +519,8 @@ Lemma TR3_shift c v n c' v' n' x :
       [EvCommitted x; EvMark ViewIDCommitting c'; EvMark ViewIDVoting v'; EvMark ViewIDNextRound n'].
 Proof.
   intros [Hp1 Hp2] Hl Hv Hh1 Hr1 Hv1 Hh2 Hr2 Hv2 Hok (K1&K2&K3&K4&K5&K6&K7&K8).
-  inversion Hok as [|e0 l0 _ Hok0]; subst. inversion Hok0 as [|e1 l1 (Hc0&_&_) Hok1]; subst.
-  inversion Hok1 as [|e2 l2 (_&Hh0&_) _]; subst.
+  inversion Hok as [|e0 l0 _ Hok0]; subst. inversion Hok0 as [|e1 l1 Hev1 Hok1]; subst.
+  inversion Hok1 as [|e2 l2 Hev2 _]; subst. cbn [ev_ok] in Hev1, Hev2. destruct Hev1 as (Hc0&_&_). destruct Hev2 as (_&Hh0&_).
   assert (Hv' : v_ver c' = v_ver v + 1) by (rewrite Hv; apply wrap32_succ; [exact K7|rewrite <- Hv; exact Hc0]).
   assert (Hh' : v_h v' = v_h c' + 1) by (rewrite Hh1; apply wrap64_succ; [lia|rewrite <- Hh1; exact Hh0]).
   assert (Hhlt : v_h v' < two64) by (rewrite Hh1; apply wrap64_lt).
@@ -564,8 +565,8 @@ Qed.
 Lemma get3_put3_same t vid w : get3 (put3 t vid w) vid = w.
 Proof.
   destruct t as [[c v] n]. unfold get3, put3.
-  destruct (vid =? ViewIDVoting) eqn:E1; [rewrite E1; reflexivity|].
-  destruct (vid =? ViewIDCommitting) eqn:E2; rewrite E1, E2; reflexivity.
+  destruct (vid =? ViewIDVoting) eqn:E1; [reflexivity|].
+  destruct (vid =? ViewIDCommitting) eqn:E2; rewrite ?E1, ?E2; reflexivity.
 Qed.
 
 Lemma TR_of3 s s' new : st_ev s' = st_ev s ++ new -> TR3 (views s) (views s') new -> TR s s'.
@@ -605,12 +606,14 @@ Qed.
 
 Lemma TR_shift s voted : TR s (shift_voting_to_committing s voted).
 Proof.
-  eapply TR_of3.
-  - unfold shift_voting_to_committing, update_observers, log_w, set_nhr, set_hdrs, set_chdr, ev_w. cbn [st_ev].
-    rewrite <- !app_assoc. cbn [app]. reflexivity.
-  - unfold shift_voting_to_committing, update_observers, log_w, set_nhr, set_hdrs, set_chdr, ev_w, set_nxt, set_vot, set_com, views.
-    cbn [k_com k_vot k_nxt].
-    apply TR3_shift; try reflexivity; [split; reflexivity|exact (view_le_refl (k_vot s))].
+  set (s' := shift_voting_to_committing s voted).
+  assert (E : st_ev s' = st_ev s ++ [EvCommitted (v_h (k_com s)); EvMark ViewIDCommitting (k_com s');
+                                     EvMark ViewIDVoting (k_vot s'); EvMark ViewIDNextRound (k_nxt s')]).
+  { unfold s', shift_voting_to_committing, update_observers. cbn. rewrite <- !app_assoc. reflexivity. }
+  apply (TR_of3 _ _ _ E). unfold views.
+  apply TR3_shift; try (unfold s', shift_voting_to_committing, update_observers; cbn; reflexivity).
+  - unfold s', shift_voting_to_committing, update_observers; cbn. split; reflexivity.
+  - unfold s', shift_voting_to_committing, update_observers; cbn. exact (view_le_refl (k_vot s)).
 Qed.
 
 Lemma TR_check_voting s s' : check_voting_precommit_shift s = Ok s' -> TR s s'.
@@ -968,7 +971,8 @@ Lemma mk_step_facts s o s1 r io :
 Proof.
   cbn [mstep xstep is_restart_x]. unfold bind. destruct (step (ms_k s) o) as [[k' r1]|] eqn:Hs; [|discriminate].
   intros E; inversion E; subst. destruct (TR_step _ _ _ _ Hs) as (new&He&H3).
-  exists new. cbn [ms_k ms_m]. rewrite He, skipn_app_length. repeat split; assumption.
+  exists new. cbn [ms_k ms_m]. split; [exact He|]. split; [exact H3|]. split; [|reflexivity].
+  rewrite He, skipn_app_length. reflexivity.
 Qed.
 
 Lemma mstep_ext s o s1 r io : no_restart o = true -> mstep s o = Ok (s1, r, io) ->
